@@ -373,6 +373,39 @@ class World:
                 h.state = "dropped"
         self.add_object(rid, st.get("wc", False))
 
+    def st_drop_gc(self, st):
+        """Inside a backend-wide buffered context the user drops every reference to a collection object and the garbage
+        collector runs (the "loop over many documents with short-lived objects" pattern).  Its pending buffered writes
+        must still reach the file when the context exits (C05/C06/C15)."""
+        oid = st["oid"]
+        if oid >= len(self.objs):
+            raise Skip()
+        ob = self.objs[oid]
+        if not ob.alive or ob.depth > 0 or not hasattr(ob.o, "buffered") or not self.backend_depth.get(ob.cls):
+            raise Skip()
+        ob.alive = False
+        ob.gone_buffered = True
+        for h in self.handles:
+            if h is not None and h.oid == oid:
+                h.state = "dropped"
+                h.node = None
+        self.userrefs = [u for u in self.userrefs if u.get("oid") != oid] if self.userrefs else self.userrefs
+        ob.o = None
+        import gc
+        gc.collect()
+        self.res[ob.rid].needs_reopen = True
+        self.probe("object_dropped_while_buffered")
+
+    def reopen_dropped(self):
+        """Once no context is active: resources whose objects were all dropped get a fresh object."""
+        if self.ctx:
+            return
+        for r in self.res:
+            if getattr(r, "needs_reopen", False):
+                r.needs_reopen = False
+                if not any(o.alive for o in self.objs if o.rid == r.rid):
+                    self.add_object(r.rid, bool(self.cfg.get("wc")))
+
     # -- outside writer ------------------------------------------------------------------------------
     def st_outside(self, st):
         rid = st["rid"]
@@ -618,6 +651,19 @@ class World:
         exp_old = ABSENT if r.disk is None else r.disk
         raised = isinstance(lres_raw, M.Raised)
         new_ok = trial is not None and not isinstance(mres, M.Raised)
+        if not M.is_mutator(h.kind, name):
+            # a faulted READ may fail; if it returns it must return the backend's current content, never stale data (C02)
+            if fired:
+                self.probe("fault_fired_in_read")
+            if not raised and trial is not None and ("result" in self.oracles or "read_result" in self.oracles):
+                msg = M.results_agree(name, h.kind, M.result_plain(name, lres_raw, self.SC), mres)
+                if msg is not None:
+                    raise Violation("result!=model", f"{name}{jsonable(st.get('args', []))} on {h.kind} at {h.path} with an injected "
+                                    f"I/O error {st['fault']} ({'fired' if fired else 'not reached'}) returned normally but not the "
+                                    f"backend's content: {msg}", step=st)
+            if raised and not fired and not isinstance(mres, M.Raised):
+                raise Violation("result!=model", f"{name}{jsonable(st.get('args', []))} raised {lres_raw!r} although no fault fired", step=st)
+            return
 
         def eq(a, b):
             return (a is ABSENT and b is ABSENT) or (a is not ABSENT and b is not ABSENT and same(a, b))
@@ -826,9 +872,12 @@ class World:
             self.backend_depth[cls] -= 1
             flushed = []
             if self.backend_depth[cls] == 0:
-                flushed = [ob for ob in self.objs if ob.cls is cls and ob.alive and ob.depth == 0]
+                flushed = [ob for ob in self.objs if ob.cls is cls and (ob.alive or getattr(ob, "gone_buffered", False)) and ob.depth == 0]
+                for ob in flushed:
+                    ob.gone_buffered = False
         self.stat("ctx_exit")
         self.after_exit(c, cls, flushed, res, pre)
+        self.reopen_dropped()
 
     def faulted_exit(self, st, c):
         """Fault-injecting configuration: an I/O error hits the flush of a context exit. The exit may raise and buffered
@@ -882,6 +931,8 @@ class World:
 
     def st_enter_group(self, st):
         """Per-object contexts of several objects entered back-to-back (a common buffered state)."""
+        if any(oid >= len(self.objs) or not self.objs[oid].alive for oid in st["oids"]):
+            raise Skip()      # all or nothing: a partially entered group would be a mixed buffering state
         for oid in st["oids"]:
             self.st_enter({"t": "enter", "ctx": "obj", "oid": oid})
 
